@@ -37,6 +37,12 @@ func main() {
 		for _, id := range core.IDs() {
 			fmt.Println(id)
 		}
+	case "worker":
+		p := core.Lookup(*prop)
+		if p == nil {
+			os.Exit(2)
+		}
+		core.WorkerMain(p)
 	case "run":
 		p := core.Lookup(*prop)
 		if p == nil {
